@@ -16,6 +16,7 @@ func init() {
 	vfRegister("VF_C10_quiet", VF_C10_quiet)
 	vfRegister("VF_C16_flags", VF_C16_flags)
 	vfRegister("VF_C17_decision", VF_C17_decision)
+	vfRegister("VF_C08_cwd", VF_C08_cwd)
 }
 
 const vfMenuSize = 18
@@ -146,6 +147,9 @@ type vfScenario struct {
 	menu      int
 }
 
+// vfCwd is the working directory of the next vfRunBuild.
+var vfCwd = "/work"
+
 type vfRunResult struct {
 	err    error
 	stdout string
@@ -158,7 +162,7 @@ type vfRunResult struct {
 // vfRunBuild runs the real `build` command (RunE) in the virtual environment.
 func vfRunBuild(sc vfScenario, quiet, stub, ignoreParams, ignoreServices bool) vfRunResult {
 	runner.VfEnv = runner.VfEnvT{Patterns: sc.patterns, GlobErr: sc.globErr, GlobFiles: sc.globFiles,
-		ReadErr: sc.readErr, YamlErr: sc.yamlErr, Inputs: sc.inputs, WriteErr: sc.writeErr}
+		ReadErr: sc.readErr, YamlErr: sc.yamlErr, Inputs: sc.inputs, WriteErr: sc.writeErr, Cwd: vfCwd}
 	template.VfFmtEnv = template.VfFmtEnvT{FormatErr: sc.formatErr, ImportsErr: sc.importErr}
 	out := &vfOut{}
 	cmd := NewBuildCmd("", "dev")
@@ -420,4 +424,24 @@ func VF_C17_decision() {
 		vfAssert(strings.Contains(stub.writes[0], "gontainerstub"), "the stub carries its build constraint")
 	}
 	vfReach("C17_decision")
+}
+
+// VF_C08_cwd: the same files and flags give the same printed report and the
+// same generated file from every working directory (relative -i and -o).
+func VF_C08_cwd() {
+	sc := vfScenario{patterns: []string{"P0"}, globErr: []bool{false}, globFiles: [][]string{{"a.yaml"}},
+		readErr: map[string]bool{}, yamlErr: map[string]bool{}, inputs: map[string]input.Input{"a.yaml": vfMenu(vfChoice("menu", vfMenuSize))}}
+	stub := vfBool("stub")
+	vfCwd = "/home/alice/project"
+	r1 := vfRunBuild(sc, false, stub, false, false)
+	vfCwd = "/tmp/b"
+	r2 := vfRunBuild(sc, false, stub, false, false)
+	vfCwd = "/work"
+	vfAssert(r1.stdout == r2.stdout, "the printed report does not depend on the working directory")
+	vfAssert((r1.err == nil) == (r2.err == nil), "the verdict does not depend on the working directory")
+	vfAssert(len(r1.writes) == len(r2.writes), "the file effect does not depend on the working directory")
+	if len(r1.writes) == 1 && len(r2.writes) == 1 {
+		vfAssert(r1.writes[0] == r2.writes[0], "the generated file does not depend on the working directory")
+	}
+	vfReach("C08_cwd")
 }
